@@ -37,7 +37,8 @@ try:
     out["apply"] = ap.returncode
     if ap.returncode:
         out["apply_err"] = ap.stderr[-400:]
-        raise SystemExit
+        print(json.dumps(out, indent=1))
+        raise SystemExit(3)
     out["demo_patched"] = run_demo()
     out["files"] = subprocess.run(["git", "-C", wt, "diff", "--stat"], capture_output=True, text=True).stdout.strip().splitlines()[-1:]
     man = json.load(open("/verif/MANIFEST.json"))
